@@ -196,15 +196,29 @@ def DType.np : DType → NpDType
 
 def inInt64 (i : Int) : Bool := -9223372036854775808 ≤ i && i ≤ 9223372036854775807
 
+/-- Text ending in a NUL character: a fixed-width text array cannot hold it (reading drops trailing NULs,
+`Np.textRead`; open finding C09-K03), so it is outside the model. -/
+def endsNul (s : String) : Bool := s.toList.getLast? == some '\x00'
+
 /-- `numpy.asarray(scalar).dtype`; `none`: outside the modelled kinds (integers beyond int64
-become `uint64`, `float64` or `object` depending on their size). -/
+become `uint64`, `float64` or `object` depending on their size; text ending in NUL is not held exactly
+by any text dtype). -/
 def scalarDType : PyVal → Option DType
   | .none => some .object
   | .bool _ => some .bool
   | .int i => if inInt64 i then some .int else none
   | .float _ => some .float
-  | .str s => some (.str (max 1 s.length))
+  | .str s => if endsNul s then none else some (.str (max 1 s.length))
   | _ => none
+
+/-- One step of numpy's dtype inference over a list: the dtype found so far meets the next element. -/
+def arrayStep (acc : DType) (y : PyVal) : Option DType := do
+  let u ← scalarDType y
+  match acc, u with
+  | .object, _ => some DType.object
+  | _, .object => some DType.object
+  | .str w, .str w' => some (.str (max w w'))
+  | a, b => if a = b then some a else none
 
 /-- `numpy.array(list).dtype` for the sequences of the property: one kind, possibly with
 nulls (→ `object`); the empty list is `float64`.  Mixed kinds are outside the model (`none`):
@@ -213,13 +227,7 @@ def arrayDType : List PyVal → Option DType
   | [] => some .float
   | x :: xs => do
     let t ← scalarDType x
-    xs.foldlM (fun (acc : DType) (y : PyVal) => do
-      let u ← scalarDType y
-      match acc, u with
-      | .object, _ => some DType.object
-      | _, .object => some DType.object
-      | .str w, .str w' => some (.str (max w w'))
-      | a, b => if a = b then some a else none) t
+    xs.foldlM arrayStep t
 
 /-- What `.tolist()` returns for a value stored into an array of the dtype (`none`: numpy
 raises, or a narrowing conversion that the repaired code never performs).  `i2f` is the
